@@ -332,6 +332,14 @@ INNER1 = {
     'I4a': ['G.ConstantUnitaryGate(np.eye(4), [2, 2])'],
     'I4b': ['G.ConstantUnitaryGate(np.eye(4), [4])'],
     'CUG': ['G.CUGate()'],
+    # composed inner gates whose equal variants are built differently (deterministic nesting;
+    # level 2 adds seeded groups of every composed class)
+    'Ctl': ['G.ControlledGate(G.XGate(), 1, 3, [[0, 1]])',
+            'G.ControlledGate(G.XGate(), 1, 3, [[1, 0]])',
+            'G.ControlledGate(G.XGate(), control_radixes=[3], control_levels=[(0, 1)])'],
+    'Frz': ['G.FrozenParameterGate(G.U3Gate(), {0: 0.5, 1: 1})',
+            'G.FrozenParameterGate(G.U3Gate(), {1: 1.0, 0: 0.5})'],
+    'Tag': ['G.TaggedGate(G.XGate(), 1)', 'G.TaggedGate(G.XGate(), 1.0)'],
 }
 
 
